@@ -4,7 +4,7 @@
    No Extract Constant, no further Extract Inductive. *)
 From Coq Require Import ExtrOcamlBasic.
 From LoraV Require Import Base.Prelude Model.Toa Spec.Airtime Model.Ldro Spec.LdroSpec
-  Base.Bytes Crypto.AES Crypto.CMAC Model.Frame Spec.L2Frame Model.Exec Model.MacCmd Gen.CmdTables Model.MacFields Model.Region Model.Mac Model.Persist Gen.PhyTables Model.PhyCore Model.Sx126x Model.Sx127x.
+  Base.Bytes Crypto.AES Crypto.CMAC Model.Frame Spec.L2Frame Model.Exec Model.MacCmd Gen.CmdTables Model.MacFields Model.Region Model.Mac Model.Persist Gen.PhyTables Model.PhyCore Model.Sx126x Model.Sx127x Model.LoraDrv Model.LoraKinds Spec.ChipMon.
 Extraction Language OCaml.
 Extraction "model.ml"
   Toa.toa_us Toa.toa_safe Toa.ldro Toa.t_sym_us Toa.bw_hz
@@ -37,4 +37,9 @@ Extraction "model.ml"
   Sx127x.set_tx_power_127 Sx127x.create_mod_127 Sx127x.create_pkt_127 Sx127x.set_mod_127 Sx127x.set_pkt_127 Sx127x.set_channel_127
   Sx127x.set_payload_127 Sx127x.do_tx_127 Sx127x.do_rx_127 Sx127x.get_rx_payload_127 Sx127x.pkt_status_127 Sx127x.get_rssi_127
   Sx127x.do_cad_127 Sx127x.set_irq_127 Sx127x.get_irq_state_127 Sx127x.process_irq_127 Sx127x.set_cw_127 Sx127x.clear_irq_127
-  Sx127x.pll_step_127 Sx127x.pll_to_freq_127.
+  Sx127x.pll_step_127 Sx127x.pll_to_freq_127
+  LoraKinds.kind126 LoraKinds.kind127 LoraDrv.initial_fields LoraDrv.dec_mode LoraDrv.init LoraDrv.sleep LoraDrv.enter_standby
+  LoraDrv.set_lora_sync_word LoraDrv.prepare_for_tx LoraDrv.tx LoraDrv.prepare_for_rx LoraDrv.start_rx LoraDrv.complete_rx LoraDrv.rx
+  LoraDrv.get_rx_result LoraDrv.rx_switch_channel LoraDrv.listen LoraDrv.prepare_for_cad LoraDrv.cad LoraDrv.process_irq_event
+  LoraDrv.wait_for_irq LoraDrv.lw_tx LoraDrv.lw_setup_rx LoraDrv.lw_low_power LoraDrv.adapter_symbols PhyCore.attempt
+  ChipMon.mon_op ChipMon.power_on ChipMon.all_items ChipMon.item_tag.
